@@ -61,6 +61,13 @@ def tokenizeHostname (special : Str → Bool) (puny : Str → Str) (hostname : S
 /-- `join_hostname`: `".".join(reversed(prefix))` -/
 def joinHostname (pref : List Str) : Str := join ['.'] pref.reverse
 
+/-- a label as it occurs in a lower-case, dot-separated, unpadded host name: no dot, no white
+space, ASCII-lower-case.  (Not part of the Python code: the Bool form of `CleanLabel`
+(`Lemmas/HostTok.lean`), here so that the driver can evaluate the law `PunyLaws.clean` on the
+real decoder's answers.) -/
+def cleanLabel (l : Str) : Bool :=
+  l.all (fun c => c != '.' && !isSpace c) && lower l == l
+
 /-- the state: `self.__trie`, a `TrieDict` over labels storing `True` -/
 abbrev T := TNode Str Bool
 
@@ -94,7 +101,8 @@ def matchHost (special : Str → Bool) (puny : Str → Str) (t : T) (host : Opti
 /-- `HostnameTrieSet.__len__` : `len(self.__trie)` -/
 def len (t : T) : Nat := TNode.len t
 
-/-- `HostnameTrieSet.__iter__` -/
+/-- `HostnameTrieSet.__iter__`: `for prefix in self.__trie.prefixes(): yield join_hostname(prefix)`
+(`prefixes` is the explicit-stack generator of `Model/TrieDict.lean`, in Python's order) -/
 def iter (t : T) : List Str := t.prefixes.map joinHostname
 
 end HostnameTrieSet
